@@ -101,7 +101,7 @@ func (c *Classifier) match(in io.Reader) (Results, error) {
 		}
 	}
 
-	if len(firstPass) == 0 {
+	if len(firstPass) == 0 || len(id.Tokens) == 0 {
 		return Results{
 			Matches:         nil,
 			TotalInputLines: 0,
